@@ -1457,7 +1457,7 @@ class Compiler:
         body = []
 
         # Track the blocks of this translation
-        self._translations.append(set())
+        self._translations.append({})
 
         # Prepare new stream
         append = identifier("append", id(node))
@@ -1714,7 +1714,7 @@ class Compiler:
             raise TranslationError(
                 "Duplicate translation name: %s.", node.name)
 
-        self._translations[-1].add(node.name)
+        self._translations[-1][node.name] = None
         body = []
 
         # prepare new stream
